@@ -356,6 +356,14 @@ fn body(c: &FdCase, stage_fd: i32) -> Outcome {
             return o;
         }
     }
+    // the kernel hands over as many descriptors as the supplied buffer has room for after one header:
+    // (len - sizeof(cmsghdr)) / sizeof(int) (scm_max_fds), the last message needs no trailing padding
+    let room = if clen > 16 { (clen - 16) / 4 } else { 0 };
+    if received.len() < sent_ids.len().min(room) {
+        o.fail_sig = Some(format!("fdpass|descriptors-lost|the supplied control buffer has room for them|{}", c.size_class()));
+        o.fail_what = format!("{} descriptors sent, control buffer of {clen} bytes has room for {room} (one 16-byte header + 4 bytes each), {} received (MSG_CTRUNC={}): the kernel was not offered the whole buffer", sent_ids.len(), received.len(), o.ctrunc);
+        return o;
+    }
     if !o.ctrunc && received.len() != sent_ids.len() {
         o.fail_sig = Some("fdpass|descriptors-lost|no MSG_CTRUNC".into());
         o.fail_what = format!("{} descriptors sent, {} received, MSG_CTRUNC not set (control buffer {clen} bytes)", sent_ids.len(), received.len());
